@@ -597,8 +597,7 @@ func do_UNPACK_EX(vm *Vm, counts int32) error {
 func do_SET_ADD(vm *Vm, i int32) error {
 	w := vm.POP()
 	v := vm.PEEK(int(i))
-	v.(*py.Set).Add(w)
-	return nil
+	return v.(*py.Set).Add(w)
 }
 
 // Calls list.append(TOS[-i], TOS). Used to implement list
@@ -1032,8 +1031,11 @@ func do_BUILD_TUPLE(vm *Vm, count int32) error {
 
 // Works as BUILD_TUPLE, but creates a set.
 func do_BUILD_SET(vm *Vm, count int32) error {
-	set := py.NewSetFromItems(vm.frame.Stack[len(vm.frame.Stack)-int(count):])
+	set, err := py.NewSetFromItems(vm.frame.Stack[len(vm.frame.Stack)-int(count):])
 	vm.DROPN(int(count))
+	if err != nil {
+		return err
+	}
 	vm.PUSH(set)
 	return nil
 }
